@@ -39,7 +39,11 @@ class Obligation:
 
 
 class Result:
+    registry: List["Result"] = []       # results under construction (lets the driver keep violations already found
+                                        # when a later rule hits a construct it cannot analyse)
+
     def __init__(self, prop: str):
+        Result.registry.append(self)
         self.prop = prop
         self.obligations: List[Obligation] = []
         self.functions: set = set()
